@@ -336,7 +336,7 @@ def random_tree(rnd, depth):
 
 
 # ------------------------------------------------------------------ hole classes
-ABS_DATES = ("240408", "240509", "241231", "250101")
+ABS_DATES = ("240408", "240509", "241231", "250101", "000101", "690131", "991231")
 REL_SPECS = ("0d", "-1d", "7d", "1m", "-1m", "3m", "-13m", "9m", "1y", "-4y", "20y", "999d")
 VSTR = ("vv", "abc", "a1", "X_y")
 VINT = ("77", "0", "007", "123456789")
